@@ -1098,12 +1098,16 @@ def c16_base_families(quick):
         "c02.lea.rm.d_s1_hex", "c02.lea.rm.md_s1_hex", "c02.vpaddd.yym.bpixspd_s2_hex", "c02.paddd.xm.bmd_s1_hex")]
     seeds += [s for s in c05_families(True) if s.name in ("c05.jmp.nokw.hex", "c05.jne.nokw.neghex", "c05.call.nokw.hex", "c05.jmp.short.hex")]
     import copy
+    if quick:
+        # (the radix handling of immediates is one function for every mnemonic; the per-change tier keeps the cheaper
+        #  carriers and the mov r64 forms, whose narrowing depends on the spelling)
+        seeds = [s for s in seeds if s.name not in ("c03.add.r.hex", "c03.add.r.neghex")]
     for s in seeds:
         for alt in ("dec", "hexz", "decz"):
-            if alt == "hexz" and quick and s.name not in ("c03.add.r.hex", "c03.mov.r64.hex", "c02.mov.mr.bpd_s1_hex", "c02.lea.rm.d_s1_hex", "c05.jmp.nokw.hex"):
+            if alt == "hexz" and quick and s.name not in ("c03.test.r.hex", "c03.mov.r64.hex", "c02.mov.mr.bpd_s1_hex", "c02.lea.rm.d_s1_hex", "c05.jmp.nokw.hex"):
                 continue
             if alt == "decz" and quick and s.name not in (
-                    "c03.add.r.hex", "c03.mov.r64.hex", "c03.mov.m_word_bmd_s1_hex.neghex", "c02.mov.mr.bpd_s1_hex", "c02.mov.mr.bmd_s1_hex",
+                    "c03.test.r.hex", "c03.mov.r64.hex", "c03.mov.m_word_bmd_s1_hex.neghex", "c02.mov.mr.bpd_s1_hex", "c02.mov.mr.bmd_s1_hex",
                     "c02.lea.rm.bpsximd_s8_hex", "c02.lea.rm.d_s1_hex", "c02.vpaddd.yym.bpixspd_s2_hex", "c05.jmp.nokw.hex", "c05.jne.nokw.neghex"):
                 continue
             sk = copy.deepcopy(s)
